@@ -233,7 +233,7 @@ PROPS = {
                               "c09_sync_progress", "c09_sync_retires", "c09_skip", "c09_rtlsdr", "c09_fir", "c09_gated",
                               "c09_delay", "c09_au_encode", "c09_v2s", "c09_resampler", "c09_generator_source", "c09_vector_sink",
                               "c09_null_sink", "c09_fft_float_eof_sound", "c09_fft_float_old_eof_unsound",
-                              "c09_delay_eof_sound", "c09_delay_old_eof_unsound", "c09_sync_eof_sound", "c09_eof_sound_hand", "c09_eof_sound_fft_v2s"],
+                              "c09_delay_eof_sound", "c09_delay_old_eof_unsound", "c09_sync_eof_sound", "c09_eof_sound_hand", "c09_eof_sound_fft_v2s", "c09_cma_verdicts"],
         "runs": [
             # FftFilterFloat around the exact engine against the wrapper model, eof() answers included: both output streams
             # left full, the input ends, the backlog is taken at once - input lengths swept over every alignment of
